@@ -17,13 +17,14 @@ var ghostKeys = map[string]string{
 	"$calls":    "(Array Int Int)",   // function value -> number of calls made through it
 	"$zw":       "(Array Int Bytes)", // zlib.Writer handle -> bytes written so far
 	"$sb":       "(Array Int Bytes)", // strings.Builder handle -> text built so far
+	"$rdfail":   "Bool",              // some read (os.ReadFile, os.Open, os.ReadDir) of a path that is there has failed
 	"$iofail":   "Bool",              // some file-system modification (create, write, mkdir, remove, rename) has failed
 }
 
 // hidden state of library objects, console output and call counters: never part of a frame obligation; a caller
 // loses what it knew about them whenever the callee may (syntactically, transitively) touch them
 func isHiddenGhost(k string) bool {
-	return k == "$out" || k == "$rdpos" || k == "$hashdata" || k == "$screst" || k == "$sctok" || k == "$calls" || k == "$iofail" || k == "$zw" || k == "$sb"
+	return k == "$out" || k == "$rdpos" || k == "$hashdata" || k == "$screst" || k == "$sctok" || k == "$calls" || k == "$iofail" || k == "$rdfail" || k == "$zw" || k == "$sb"
 }
 
 func isGhostKey(k string) bool { _, ok := ghostKeys[k]; return ok }
@@ -60,6 +61,9 @@ func (g *FuncGen) ghostSet(st *State, key, term string) {
 
 // effects of library functions on ghost state (for loop and call frames)
 var libEffects = map[string][]string{
+	"os.ReadFile":                   {"$iofail", "$rdfail"},
+	"os.Open":                       {"$iofail", "$rdfail"},
+	"os.ReadDir":                    {"$iofail", "$rdfail"},
 	"os.Create":                     {"$fs", "$iofail"},
 	"os.OpenFile":                   {"$fs", "$iofail"},
 	"os.Mkdir":                      {"$fs", "$iofail"},
@@ -97,6 +101,16 @@ func libEffectKeys(fullName string) []string {
 		return []string{"$hashdata"}
 	}
 	return nil
+}
+
+// rdFailed records that a read of a path that is there returned an error (a fault: EIO, EACCES, EMFILE ...). Both flags
+// are raised: $iofail feeds the reporting obligations (C16), $rdfail marks the run as one in which a read fault happened;
+// every obligation other than the reporting ones is about runs without such a fault.
+func (g *FuncGen) rdFailed(st *State, cond string) {
+	cur := g.ghostGet(st, "$iofail")
+	g.ghostSet(st, "$iofail", fmt.Sprintf("(or %s %s)", cur, cond))
+	rd := g.ghostGet(st, "$rdfail")
+	g.ghostSet(st, "$rdfail", fmt.Sprintf("(or %s %s)", rd, cond))
 }
 
 // ioFailed records that a file-system modification returned an error: err is the error term of the primitive.
